@@ -33,6 +33,22 @@ def gen_specs(run):
         specs.append({"id": f"c12-{sid}", "group": "ristretto" if (sid % 4 == 2 and b * m * 8 <= 256) else "fm", "members": mems, "verifies": verifies, "_tags": tags,
                       "_kind": "pairs", "_conf": [b, m, T], "with_gens": (b * caps[-1] <= 32)})
         sid += 1
+    # very large unused capacity (zero padding of thousands of table entries): capacity ratios far beyond 8
+    big = [(64, 1, 1, [1, 32, 64], "fm"), (8, 1, 2, [1, 256, 512], "fm"), (1, 2, 1, [2, 2048], "fm"), (16, 2, 1, [2, 128], "fm"), (64, 1, 1, [1, 32], "ristretto")]
+    if not quick:
+        big += [(64, 4, 2, [4, 64, 128], "fm"), (32, 1, 3, [1, 64, 256], "fm"), (2, 1, 1, [1, 1024, 4096], "fm"), (64, 2, 1, [2, 64], "ristretto"), (8, 1, 1, [1, 256], "ristretto")]
+    for (b, m, T, caps, grp) in big:
+        rs = {"kind": "chacha", "seed": rng.randrange(1 << 32)}
+        base = gen.mk_member(rng, b, m, cap=m, T=T, rngspec=rs, seed=(m == 1))
+        mems = [dict(base, cap=c) for c in caps]
+        verifies, tags = [], []
+        for pi, cp in enumerate(caps):
+            for cv in (caps[0], caps[-1]):
+                verifies.append({"mode": "RecoverAndVerify" if m == 1 else "VerifyOnly", "vmembers": [gen.vmember(base, pi, cap=cv)], "log": False})
+                tags.append((cp, cv))
+        specs.append({"id": f"c12-{sid}", "group": grp, "members": mems, "verifies": verifies, "_tags": tags, "_kind": "pairs", "_conf": [b, m, T], "with_gens": False,
+                      "log_merlin": False, "log_msm": False})
+        sid += 1
     # mixed-capacity batches (members with larger capacity but fewer commitments than others, ties for the maximum, ...)
     for bi in range(8 if quick else 120):
         b = rng.choice([2, 4, 8])
